@@ -12,7 +12,7 @@ from pv.core import Sub, EnumSub, Violation, call, call_or, must_raise, check, s
 
 ASSUMPTIONS = [
     'containers are list / tuple / dict / Dict / dictattr with string keys or (homogeneous) integer keys (what loop(list, tuple, dict) lifts over), depth <= 4, container sizes 0-3; "same shape" includes the key order of dicts',
-    'different-shape companions are flat lists of 4-5 scalars, or dicts with scalar values over foreign keys or over any subset of the key alphabet (matched where the key sets coincide, broadcast elsewhere): the documented '
+    'different-shape companions are flat lists of 0-5 scalars (matched wherever a list / tuple of exactly that length sits, broadcast elsewhere), or dicts with scalar values over foreign keys or over any subset of the key alphabet (matched where the key sets coincide, broadcast elsewhere): the documented '
     '"re-match deeper" rule of _item_by_i/_item_by_key then cannot fire by accident and plain broadcasting is the only reading',
     'same-shape companions mirror the structure to depth k and are scalars below; no companion is named "axis" (a keyword the decorator consumes)',
     'replace(): `old` is one character or a list of 4-5 single characters not contained in `new`; split(): `sep` is a non-empty string',
@@ -144,7 +144,7 @@ def _lift_case(draw):
     ncomp = draw(st.sampled_from([0, 1, 1, 2, 2]))
     comps = []
     for j in range(ncomp):
-        kind = draw(st.sampled_from(['scalar', 'same', 'same', 'same_partial', 'flat_list', 'other_dict', 'overlap_dict']))
+        kind = draw(st.sampled_from(['scalar', 'same', 'same', 'same_partial', 'flat_list', 'flat_list', 'other_dict', 'overlap_dict']))
         if kind == 'scalar':
             c = ['leaf', draw(st.sampled_from([100, 'S', None]))]
         elif kind == 'same':
@@ -152,7 +152,8 @@ def _lift_case(draw):
         elif kind == 'same_partial':
             c = ['mirror', draw(st.integers(0, max(d - 1, 0))), j]
         elif kind == 'flat_list':
-            c = [draw(st.sampled_from(['list', 'tuple'])), [['leaf', v] for v in draw(st.lists(st.integers(50, 59), min_size=4, max_size=5))]]
+            # any length: where it equals the length of a list / tuple of the structure it is matched there, everywhere else (length 0, 1, ...) broadcast whole
+            c = [draw(st.sampled_from(['list', 'tuple'])), [['leaf', v] for v in (lambda k: draw(st.lists(st.integers(50, 59), min_size=k, max_size=k)))(draw(st.sampled_from([0, 1, 1, 1, 2, 3, 4, 5])))]]
         elif kind == 'overlap_dict':
             # any key set over the structure's key alphabet plus a foreign key, scalar values: where it equals a dict's key set it is matched by key,
             # everywhere else (e.g. same size, partly overlapping keys) it must be broadcast whole
@@ -167,11 +168,23 @@ def _lift_case(draw):
     # positional companions must precede: a positional second companion requires a positional first one
     if len(comps) == 2 and comps[0]['how'] == 'kw' and comps[1]['how'] == 'pos':
         comps[0]['how'] = 'pos'
-    return dict(s=s, comps=comps, first_kw=first_kw)
+    # the defaults the lifted function declares for a and b: strings, or containers as long as / keyed like parts of the structure may be
+    return dict(s=s, comps=comps, first_kw=first_kw, defaults=draw(st.sampled_from(['scalars', 'scalars', 'containers', 'containers2'])))
 
 
 def _leaf_fn(x, a='dA', b='dB'):
     return ('leaf', x, a, b)
+
+
+def _leaf_fn_c(x, a=('t0', 't1'), b=['l0', 'l1', 'l2']):
+    return ('leaf', x, a, b)
+
+
+def _leaf_fn_c2(x, a={'a': 'A', 'b': 'B'}, b=('u0',)):
+    return ('leaf', x, a, b)
+
+
+_LEAF_FNS = {'scalars': _leaf_fn, 'containers': _leaf_fn_c, 'containers2': _leaf_fn_c2}
 
 
 def run_lift(spec):
@@ -191,13 +204,14 @@ def run_lift(spec):
             pos.append(v)
         else:
             kw[names[j]] = v
-    lifted = loop(list, tuple, dict)(_leaf_fn)
-    what = 'loop(list,tuple,dict)(f)(%s%s%s)' % ('x=' if spec['first_kw'] else '', short(x, 150), ''.join(', %s' % short(p, 80) for p in pos) + ''.join(', %s=%s' % (k, short(v, 80)) for k, v in kw.items()))
+    leaf_fn = _LEAF_FNS[spec.get('defaults', 'scalars')]
+    lifted = loop(list, tuple, dict)(leaf_fn)
+    what = 'loop(list,tuple,dict)(f%s)(%s%s%s)' % ('' if leaf_fn is _leaf_fn else ' declared as f(x, a=%r, b=%r)' % leaf_fn.__defaults__, 'x=' if spec['first_kw'] else '', short(x, 150), ''.join(', %s' % short(p, 80) for p in pos) + ''.join(', %s=%s' % (k, short(v, 80)) for k, v in kw.items()))
     if spec['first_kw']:
         res = call(what, lambda: lifted(x=x, **kw))
     else:
         res = call(what, lambda: lifted(x, *pos, **kw))
-    exp = model_lift(_leaf_fn, x, pos, kw)
+    exp = model_lift(leaf_fn, x, pos, kw)
     check(same_shape(res, exp), '%s = %s, leaf-wise model says %s', what, res, exp)
     d = depth(s)
     pos_same = any(c['how'] == 'pos' and c['kind'].startswith('same') for c in spec['comps'])
@@ -210,6 +224,29 @@ def run_lift(spec):
                 walk(k)
     walk(s)
     cls = ['depth=%i' % d, 'ncomp=%i' % len(spec['comps'])] + kinds + (['first_by_keyword'] if spec['first_kw'] else [])
+    lens_seen, keys_seen = set(), set()
+
+    def shapes(s):
+        if s[0] in ('list', 'tuple'):
+            lens_seen.add(len(s[1]))
+            for k in s[1]:
+                shapes(k)
+        elif s[0] != 'leaf':
+            keys_seen.add(tuple(sorted(str(k) for k, _ in s[1])))
+            for _, v in s[1]:
+                shapes(v)
+    shapes(s)
+    if leaf_fn is not _leaf_fn:
+        unfilled = [nm for i, nm in enumerate(names) if nm not in kw and i >= len(pos)]
+        for nm in unfilled:
+            dv = leaf_fn.__defaults__[names.index(nm)]
+            if (isinstance(dv, (list, tuple)) and len(dv) in lens_seen) or (isinstance(dv, dict) and tuple(sorted(dv)) in keys_seen):
+                cls.append('unfilled_container_default_shaped_like_the_data')
+                break
+    for c, v in zip(spec['comps'], pos + [kw[n] for n in names if n in kw]):
+        if c['kind'] == 'flat_list' and len(v) <= 1 and any(l != len(v) for l in lens_seen):
+            cls.append('companion_of_length_0_or_1_next_to_longer_sequences')
+            break
 
     def _maxlen(s):
         if s[0] == 'leaf':
@@ -508,10 +545,10 @@ def enum_waiter(tier):
 
 SUBS = [
     Sub('lift', lambda tier: _lift_case(), run_lift, quick=3000, thorough=20000,
-        rule='nested list/tuple/dict/Dict/dictattr structures (depth <= 4) with 0-2 companions (scalar, same shape to full or partial depth, flat list of other length, '
-             'dict over other keys), each positional or by keyword, first argument positional or by keyword; oracle: recursive leaf-map model, exact container types. '
+        rule='nested list/tuple/dict/Dict/dictattr structures (depth <= 4) with 0-2 companions (scalar, same shape to full or partial depth, flat list of 0-5 scalars - matched where a sequence of that length sits, broadcast elsewhere, '
+             'dict over other keys), each positional or by keyword, first argument positional or by keyword; the lifted function declares a and b with string defaults or with tuple / list / dict defaults as long as (keyed like) parts of the data, which a leaf must receive whole when the caller leaves them out; oracle: recursive leaf-map model, exact container types. '
              'non-trivial = depth >= 2 with a same-shape positional companion, or mixed container types',
-        floor=0.2, class_floors={'depth>=2_positional_same_shape': 0.08, 'first_by_keyword': 0.05, 'container_of_40+': 0.03, 'integer_dict_keys_with_same_shape_companion': 0.03}),
+        floor=0.2, class_floors={'unfilled_container_default_shaped_like_the_data': 0.08, 'companion_of_length_0_or_1_next_to_longer_sequences': 0.03, 'depth>=2_positional_same_shape': 0.08, 'first_by_keyword': 0.05, 'container_of_40+': 0.03, 'integer_dict_keys_with_same_shape_companion': 0.03}),
     Sub('libfuncs', lambda tier: _lib_case(), run_lib, quick=2500, thorough=15000,
         rule='lower/upper/strip/proper/capitalize/f12/as_float/replace/split on nested structures with string, number and None leaves; oracle: result equals the structure '
              'with the function applied to every leaf on its own, and (where python has the method) the python string method at string leaves. non-trivial = depth >= 2',
